@@ -39,6 +39,8 @@ thread_local! {
     static LAST_PANIC: RefCell<Option<(String, u32, String)>> = const { RefCell::new(None) };
     static DECLS: RefCell<Option<Decls>> = const { RefCell::new(None) };
     static LOGBUF: RefCell<String> = const { RefCell::new(String::new()) };
+    /// (file name as an error would name it, number of lines delivered) for the running job
+    static FILE_LINES: RefCell<Vec<(String, u32)>> = const { RefCell::new(Vec::new()) };
 }
 
 struct FuelExhausted(&'static str);
@@ -161,6 +163,8 @@ struct Decls {
     extra: String,
     max_map: usize,
     order_tie: bool,
+    /// first entry of the line map that points outside the delivered input, if any
+    bad_map: Option<String>,
 }
 
 fn strip_order(dbg: &str) -> (String, Option<u64>) {
@@ -217,6 +221,32 @@ fn obs_build(cs: &CompilerState, w: &mut dyn Write, args: &Args) -> Result<(), E
             h.write_str(&i.0);
             h.write_u64(i.1 as u64);
         }
+    }
+    // the line map a builder sees must point inside the delivered input: a known file, 1 <= line <= its lines
+    FILE_LINES.with(|fl| {
+        let fl = fl.borrow();
+        let find = |name: &str| fl.iter().find(|f| f.0 == name || f.0.ends_with(&format!("/{}", name))).map(|f| f.1);
+        for (i, m) in cs.mapped_lines.iter().enumerate() {
+            let bad = match find(&m.0) {
+                None => Some(format!("entry {} names file {:?} which was not delivered", i, m.0)),
+                Some(n) if m.1 < 1 || m.1 > n => Some(format!("entry {} points to line {} of {:?} which has {} line(s)", i, m.1, m.0, n)),
+                _ => match &m.2 {
+                    Some(inc) => match find(&inc.0) {
+                        None => Some(format!("entry {} included from {:?} which was not delivered", i, inc.0)),
+                        Some(n) if inc.1 < 1 || inc.1 > n => Some(format!("entry {} included from line {} of {:?} which has {} line(s)", i, inc.1, inc.0, n)),
+                        _ => None,
+                    },
+                    None => None,
+                },
+            };
+            if bad.is_some() {
+                d.bad_map = bad;
+                break;
+            }
+        }
+    });
+    if std::env::var("SIMC_SHOW_PRE").is_ok() {
+        eprintln!("--- preprocessed text:\n{}--- line map: {:?}", cs.preprocessed_utf8, cs.mapped_lines);
     }
     d.extra = format!(
         "pre={:016x} literals={:?} asm={:?}",
@@ -328,6 +358,7 @@ pub struct JobResult {
     pub order_tie: bool,
     pub switched_out_at: Vec<&'static str>,
     pub getrandom_calls: u32,
+    pub bad_map: Option<String>,
     pub clock_reads: u32,
     pub pid_reads: u32,
     pub include_depth: u32,
@@ -388,6 +419,19 @@ fn run_job(job: &JobSpec, env: &WorkerEnv, sched: &Arc<Sched>, tid: usize, multi
     DECLS.with(|d| *d.borrow_mut() = None);
     LAST_PANIC.with(|p| *p.borrow_mut() = None);
     publish_site(tid, "start");
+    FILE_LINES.with(|fl| {
+        let lc = |b: &[u8]| -> u32 {
+            let nl = b.iter().filter(|c| **c == b'\n').count() as u32;
+            (if b.is_empty() || b.ends_with(b"\n") { nl } else { nl + 1 }).max(1)
+        };
+        let mut v = vec![("string".to_string(), lc(&job.source.0))];
+        for f in &job.includes {
+            if let IncKind::File(b) = &f.kind {
+                v.push((f.path.clone(), lc(&b.0)));
+            }
+        }
+        *fl.borrow_mut() = v;
+    });
     CTX.with(|c| {
         *c.borrow_mut() = Some(Ctx {
             sched: sched.clone(),
@@ -484,6 +528,7 @@ fn run_job(job: &JobSpec, env: &WorkerEnv, sched: &Arc<Sched>, tid: usize, multi
         order_tie: decls.order_tie,
         switched_out_at: ctx.switched_out_at,
         getrandom_calls: simenv::getrandom_calls() - gr0,
+        bad_map: decls.bad_map.clone(),
         clock_reads: clock_reads.0,
         pid_reads: clock_reads.1,
         include_depth: 0,
